@@ -30,6 +30,9 @@ pub struct ResolveInput {
     /// edits applied after the scan and after a first, cache-warming round of queries
     #[serde(default)]
     pub edits: Vec<(String, String)>,
+    /// after the edits (and a round of queries on them) the editor closes the edited documents without saving
+    #[serde(default)]
+    pub close_after_edits: bool,
 }
 
 /// One observed answer of the real code.
@@ -171,7 +174,7 @@ impl Scenario for Resolve {
                 }
             }
         }
-        serde_json::to_value(ResolveInput { sim, spec, sandbox: None, run_seed, reopen, preopen: vec![], edits: vec![] }).unwrap()
+        serde_json::to_value(ResolveInput { sim, spec, sandbox: None, run_seed, reopen, preopen: vec![], edits: vec![], close_after_edits: false }).unwrap()
     }
 
     fn exec(&self, input: &Value) -> RunOut {
